@@ -76,3 +76,33 @@ Proof.
     + match goal with |- VErrText ?t1 = VErrText ?t2 => destruct t1, t2 end; try discriminate; [|reflexivity].
       f_equal. f_equal. apply str_eqb_eq. exact H.
 Qed.
+
+(* ... and it accepts every tree compared with itself: the tie check cannot fail on equal trees *)
+Fixpoint ast_eqb_refl (a : ast) {struct a} : ast_eqb a a = true
+with value_eqb_refl (v : value) {struct v} : value_eqb v v = true.
+Proof.
+  - assert (Hl : forall l : list ast,
+             (fix go (l m : list ast) : bool :=
+                match l, m with
+                | [], [] => true
+                | x :: l', y :: m' => ast_eqb x y && go l' m'
+                | _, _ => false
+                end) l l = true).
+    { induction l as [|x l IH]; [reflexivity|]. rewrite ast_eqb_refl. exact IH. }
+    destruct a; cbn [ast_eqb]; rewrite ?str_eqb_refl, ?names_eqb_refl, ?ast_eqb_refl, ?Hl, ?Bool.eqb_reflx; cbn [andb];
+      try reflexivity.
+    + apply value_eqb_refl.
+    + induction cases as [|[c r] l IH]; [reflexivity|]. rewrite !ast_eqb_refl. exact IH.
+    + induction m as [|[k x] l IH]; [reflexivity|]. rewrite str_eqb_refl, ast_eqb_refl. exact IH.
+  - destruct v; cbn [value_eqb]; rewrite ?str_eqb_refl, ?names_eqb_refl, ?ast_eqb_refl, ?Bool.eqb_reflx; cbn [andb];
+      try reflexivity.
+    + apply Z.eqb_refl.
+    + apply fl_eqb_refl.
+    + induction l as [|x l IH]; [reflexivity|]. rewrite value_eqb_refl. exact IH.
+    + induction m as [|[k x] l IH]; [reflexivity|]. rewrite str_eqb_refl, value_eqb_refl. exact IH.
+    + induction cap as [|[k x] l IH]; [reflexivity|]. rewrite str_eqb_refl, value_eqb_refl. exact IH.
+    + destruct thrown; [apply str_eqb_refl|reflexivity].
+Qed.
+
+Theorem ast_eqb_iff : forall a b, ast_eqb a b = true <-> a = b.
+Proof. intros a b. split; [apply ast_eqb_sound|intros <-; apply ast_eqb_refl]. Qed.
